@@ -64,7 +64,10 @@ class Report:
         self.extra: Dict[str, Any] = {}
         self._seen_cases: set = set()
         self.known = [k for k in load_known() if k["property"] == pid or pid in k.get("also", [])]
-        d = os.path.join(ROOT, "replays", pid)
+        # a version leg (VERIF_LEG=311: the same check under another interpreter) keeps its own files
+        self.leg = os.environ.get("VERIF_LEG", "")
+        self.filetag = pid + (f".leg{self.leg}" if self.leg else "")
+        d = os.path.join(ROOT, "replays", self.filetag)
         if os.path.isdir(d):
             for fn in os.listdir(d):
                 if fn.endswith(".json"):
@@ -157,16 +160,46 @@ class Report:
                 if self.ob(obligation)["status"] != "failed":
                     self.ob(obligation)["status"] = "known-finding"
                 return f"known:{fid}"
-        d = os.path.join(ROOT, "replays", self.pid)
+        d = os.path.join(ROOT, "replays", self.filetag)
         os.makedirs(d, exist_ok=True)
         path = os.path.join(d, f"{key}.json")
         with open(path, "w") as f:
-            json.dump({"case": case, "summary": summary, "replay": _jsonable(out)}, f, indent=1)
+            json.dump({"case": case, "summary": summary, "replay": _jsonable(out),
+                       "interpreter": ".".join(map(str, sys.version_info[:2]))}, f, indent=1)
         self.ob(obligation)["status"] = "failed"
         self.violations.append({"obligation": obligation, "summary": summary, "replay": path, "case": case})
         return "violation"
 
     # ---------------------------------------------------------------- finish
+    def merge_leg(self, leg: str, rc: int, stdout: str, stderr: str) -> None:
+        """Fold the result of the same check run under another interpreter into this report."""
+        p = os.path.join(ROOT, "evidence", f"{self.pid}.leg{leg}.json")
+        tag = f"[CPython 3.{leg[1:]} leg] "
+        if rc == 2 or not os.path.exists(p):
+            self.harness_error(f"{tag}exit {rc}: {stderr[-800:]}")
+            return
+        with open(p) as f:
+            ev = json.load(f)
+        os.unlink(p)
+        cov = ev["coverage"]
+        for name, o in cov.get("obligation_detail", {}).items():
+            self.obligations[tag + name] = o
+        self.paths += cov.get("states", 0)
+        self.queries += cov.get("transitions", 0)
+        self.replays += cov.get("traces_validated_against_impl", 0)
+        self.solver_time += cov.get("solver_time_s", 0.0)
+        self.inconclusive += [tag + x for x in cov.get("inconclusive", [])]
+        self.extra[f"leg{leg}"] = {k: cov.get(k) for k in ("interpreter", "bounds", "code_objects", "observation_points",
+                                                            "real_suspensions_validated", "real_probes_validated", "f2_counterexamples",
+                                                            "known_findings_hit", "unreachable_counterexamples", "contexts_checked")
+                                   if cov.get(k) is not None}
+        for line in stdout.splitlines():
+            if line.startswith("VIOLATION "):
+                path = line.split("replay=", 1)[1].strip()
+                self.violations.append({"obligation": tag.strip(), "summary": "see replay file", "replay": path, "case": {}})
+            elif line.startswith("KNOWN-FINDING"):
+                print(line.replace("KNOWN-FINDING:", "KNOWN-FINDING:", 1) + f" {tag.strip()}")
+
     def finish(self) -> int:
         wall = time.monotonic() - self.t0
         # a known finding is only announced when this run re-confirmed it
@@ -231,7 +264,7 @@ class Report:
             "violations": len(self.violations),
         }
         os.makedirs(os.path.join(ROOT, "evidence"), exist_ok=True)
-        with open(os.path.join(ROOT, "evidence", f"{self.pid}.json"), "w") as f:
+        with open(os.path.join(ROOT, "evidence", f"{self.filetag}.json"), "w") as f:
             json.dump(_jsonable(ev), f, indent=1)
         print(f"[{self.pid}] tier={self.tier} obligations={n_ob} discharged={n_dis} paths={self.paths} "
               f"queries={self.queries} solver={self.solver_time:.1f}s replays={self.replays} "
